@@ -1,8 +1,12 @@
 import AFV.Driver.Proto
+import AFV.Driver.NestJson
 namespace AFV.Driver.C19
-open Lean AFV.Proto
+open Lean AFV.Proto AFV.Nest AFV.Driver.NestJson
 
-/-- Handler for property C19 requests (stub: not implemented yet). -/
-def handle (_req : Json) : Json := err "unimplemented"
+/-- ops: {"op":"eval", …} as C05 (the harness scales the inputs itself and asks for both evaluations). -/
+def handle (req : Json) : Json :=
+  match (field? req "op").bind getStr? with
+  | some "eval" => evalReply req
+  | _ => err "bad-op"
 
 end AFV.Driver.C19
